@@ -18,11 +18,16 @@ def Grammar(description, include_source=False):
 
     # Generate and compile the souce code.
     builder = translator.generate_source_code(docstring, parsed)
-    module = builder.compile(
-        module_name=name,
-        docstring=docstring,
-        source_var='_source_code' if include_source else None,
-    )
+    source_code = builder.source_code()
+
+    # (Compiled like any module that a user makes of the source code: asserts
+    # and docstrings of the grammar's Python sections stay in.)
+    code_object = compile(source_code, f'<{name}>', 'exec')
+    module = types.ModuleType(name, doc=docstring)
+    exec(code_object, module.__dict__)
+
+    if include_source:
+        module._source_code = source_code
 
     if parsed.extends is not None:
         # The chain of ancestors is the one that exists now, whatever is
